@@ -50,6 +50,8 @@ def coq_deps(vfile):
 
 def coq_prepare():
     """_CoqProject lists every .v file of coq/ (generated, so that property files can be added independently)"""
+    import scrape_dispatch
+    scrape_dispatch.main()          # coq/DispatchTable.v regenerated from /repo's sources (C07)
     vs = sorted(f for f in os.listdir(COQ) if f.endswith(".v"))
     txt = "-Q . V\n" + "\n".join(vs) + "\n"
     cp = os.path.join(COQ, "_CoqProject")
